@@ -81,7 +81,7 @@ impl Check for C07 {
         "C07"
     }
     fn gens(&self) -> Vec<GenSpec> {
-        vec![GenSpec { name: "fair", quick: 2500, thorough: 100_000 }]
+        vec![GenSpec { name: "fair", quick: 15_000, thorough: 1_000_000 }]
     }
     fn rule(&self) -> &'static str {
         "Disjunctions of 2-4 branches built with conde, match (wildcard arms) or matche, at top level, after a conjunction prefix with 1-2 answers, or nested as a branch of another disjunction (depth 2). Branches: infinite producers (loop { q == c }, [always(), q == c], a recursive closure generating lists through a fresh variable, append with fresh arguments, loop over member), silent divergers (never(), [never(), q == c], a left-recursive closure, a closure that only calls itself, a closure that recurses through a fresh block) and finite goals (q == c, member over 2-7 elements), in every position. Bounded-progress oracle in engine steps (hook H1, logical time): every branch is first run alone from the same prefix; if it yields its j-th answer (j <= 3) within s <= 6000 engine steps, the whole disjunction must yield that answer (as a multiset over all branches, tuples up to renaming) within F = 64 * 2^(k*d) * (s_max + 16) engine steps, k = number of branches, d = nesting depth. Distinct = distinct program text; non-trivial = at least one branch with an obligation AND at least one infinite or diverging sibling."
@@ -94,8 +94,8 @@ impl Check for C07 {
     }
     fn floor(&self, tier: Tier) -> u64 {
         match tier {
-            Tier::Quick => 1200,
-            Tier::Thorough => 40_000,
+            Tier::Quick => 6000,
+            Tier::Thorough => 300_000,
         }
     }
     fn required_counters(&self) -> Vec<&'static str> {
